@@ -59,7 +59,7 @@ fn sequence(mut idx: u64, l: u32) -> Vec<Behaviour> {
     out
 }
 
-const SPECIALS: u64 = 16;
+const SPECIALS: u64 = 18;
 
 pub fn plan(p: &EpParams) -> Plan {
     let l = max_len(p);
@@ -67,7 +67,7 @@ pub fn plan(p: &EpParams) -> Plan {
         episodes: n_sequences(l) * 2 + SPECIALS,
         exhaustive: true,
         rule: format!(
-            "fault sequences: every per-attempt endpoint behaviour sequence of length <= {} over {} behaviours (200 201 202 204 102 100 203 205 301 400 404 429 500 503 reset-after-request reset-on-accept answer-{}s-late) followed by 200, once with 1 message and once with 3 messages (sequence rotated per message), plus {} special episodes (closed port first, deletion while failing, always-late endpoint, five episodes in which a unary puller competes with the push rounds for the same subscription, two in which the endpoint never sends a final answer six times in a row, two in which it accepts after 20-25 s, well inside the ack deadline, and two in which the answers of one round come back in another order than its POSTs went out). Push interval {} s, ack deadline {} s. Non-trivial: >=1 POST answered by each behaviour of the sequence. Distinct: the behaviour sequence x message count.",
+            "fault sequences: every per-attempt endpoint behaviour sequence of length <= {} over {} behaviours (200 201 202 204 102 100 203 205 301 400 404 429 500 503 reset-after-request reset-on-accept answer-{}s-late) followed by 200, once with 1 message and once with 3 messages (sequence rotated per message), plus {} special episodes (closed port first, deletion while failing, always-late endpoint, five episodes in which a unary puller competes with the push rounds for the same subscription, two in which the endpoint never sends a final answer six times in a row, two in which it accepts after 20-25 s, well inside the ack deadline, two in which the answers of one round come back in another order than its POSTs went out, and two in which a page of 60 messages is accepted in one and the same instant). Push interval {} s, ack deadline {} s. Non-trivial: >=1 POST answered by each behaviour of the sequence. Distinct: the behaviour sequence x message count.",
             l, alphabet().len(), LATE_S, SPECIALS, INTERVAL_S, DEADLINE_S
         ),
     }
@@ -124,7 +124,10 @@ async fn episode(p: &EpParams) -> EpReport {
         None => sequence(idx % nseq, l),
         Some(_) => vec![],
     };
-    let n_msgs: usize = if special.is_some() { 2 } else if idx < nseq { 1 } else { 3 };
+    // specials 16/17: a whole page of 60 messages whose POSTs are all accepted in the same instant
+    // (20 s after they went out): sixty acknowledgements reach the subscription at once
+    let page_at_once = matches!(special, Some(16) | Some(17));
+    let n_msgs: usize = if page_at_once { 60 } else if special.is_some() { 2 } else if idx < nseq { 1 } else { 3 };
 
     // special 0/1: the port is closed for the first rounds (connection refused), then comes up
     let closed_first = matches!(special, Some(0) | Some(1));
@@ -194,6 +197,15 @@ async fn episode(p: &EpParams) -> EpReport {
         if matches!(special, Some(14) | Some(15)) {
             e.set_script("p0", vec![Behaviour::Late(20, 200); 6]);
             e.set_script("p1", vec![Behaviour::Status(500), Behaviour::Status(200)]);
+        }
+        if page_at_once {
+            // (the POSTs of one round go out 5 ms apart: a fixed delay per POST would spread the
+            // answers in the same way, so they are all held until one instant 20 s from now)
+            let at = w.vt() + 20 * SEC;
+            for tg in &tags {
+                e.set_script(tg, vec![Behaviour::HeldUntil(at, 200), Behaviour::Status(200)]);
+            }
+            rep.inc("pages_accepted_in_one_instant");
         }
         // special 4: everything is late for ever (never accepted in time)
         if special == Some(4) {
@@ -454,7 +466,7 @@ fn sorted(m: &HashMap<String, String>) -> BTreeMap<&String, &String> {
 /// The answer was an accepted status, given well within the ack deadline.
 fn accepted_in_time(r: &PostRec) -> bool {
     match (&r.behaviour, r.vt_answer) {
-        (Behaviour::Status(s), Some(a)) | (Behaviour::Late(_, s), Some(a)) if matches!(s, 102 | 200 | 201 | 202 | 204) => a.saturating_sub(r.vt_begin) < (DEADLINE_S - MARGIN_S) * SEC,
+        (Behaviour::Status(s), Some(a)) | (Behaviour::Late(_, s), Some(a)) | (Behaviour::HeldUntil(_, s), Some(a)) if matches!(s, 102 | 200 | 201 | 202 | 204) => a.saturating_sub(r.vt_begin) < (DEADLINE_S - MARGIN_S) * SEC,
         _ => false,
     }
 }
@@ -477,7 +489,7 @@ fn failure_known(r: &PostRec) -> Option<Vt> {
         Behaviour::Status(s) if matches!(s, 200 | 201 | 202 | 204) => None,
         Behaviour::Status(_) | Behaviour::ResetAfterRequest | Behaviour::Refuse => r.vt_answer,
         Behaviour::Late(d, _) if *d >= DEADLINE_S + MARGIN_S => Some(r.vt_begin + DEADLINE_S * SEC),
-        Behaviour::Late(..) | Behaviour::LateMs(..) => None,
+        Behaviour::Late(..) | Behaviour::LateMs(..) | Behaviour::HeldUntil(..) => None,
     }
 }
 
